@@ -506,6 +506,13 @@ func genPlan(seed uint64, idx int) *Plan {
 				if q.Scheme == "http" {
 					q.Port = 80
 				}
+			case x < 9:
+				// the other scheme's default port, written out (https://host:80,
+				// http://host:443): origins of their own
+				q.Port = 80
+				if q.Scheme == "http" {
+					q.Port = 443
+				}
 			}
 			if g.chance(1, 30) {
 				// IP literal (IPv4 only; see Describe)
